@@ -1253,3 +1253,13 @@ def g_compile_bwd(rng, level=0, n_random=60):
         g = ci.CliffordGate(*range(n_))
         g.backward_map = _rand_map(rng, n_)
         yield {'self': g}
+
+
+@gen(CI + 'CliffordGate.compile#any')
+def g_compile_any(rng, level=0, n_random=120):
+    import pyclifford.circuit as ci
+    for k in range(n_random):
+        if k % 6 == 0:
+            yield {'self': ci.CliffordGate(*range(int(rng.integers(1, 4))))}        # nothing set: must raise Exception
+        else:
+            yield {'self': _any_gate(rng, int(rng.integers(1, 4)), 'forward' if k % 2 else 'backward')}
